@@ -50,7 +50,7 @@ Proof.
     destruct (offset_at_table zone ps first t Hz Hl Hr Hinc Hlen) as (lt & Hlt & Hzo).
     exists lt. split; [exact Hlt|]. rewrite Ho in Hzo. injection Hzo as ->. reflexivity.
   - intros w l Hsp He. exact (holds_loc_table zone ps first (utc_year w) w l Hz Hr Hinc Hsp He).
-  - intros t o Hsp _ Ho _ _. unfold szone_of in Hsp. rewrite spacing_ok_table, andb_true_r in Hsp.
+  - intros t o Hsp _ Ho _ _ _. unfold szone_of in Hsp. rewrite spacing_ok_table, andb_true_r in Hsp.
     unfold szone_of in Ho. rewrite zone_off_table in Ho. injection Ho as <-.
     set (l := t + table_off (offs ps) (ut_offset first) t).
     exists (table_answer ps first l). split; [apply from_local_table; assumption|].
@@ -142,9 +142,6 @@ Proof.
   repeat (split; [assumption|]). exact Hreg.
 Qed.
 
-Definition rule_offs_ok (sz : szone) : bool :=
-  match z_rule sz with Some (inr r) => J.fo_ok (r_std r) && J.fo_ok (r_dst r) | _ => true end.
-
 Lemma offsets_ok_rule first tr r : J.offsets_ok (mk_szone first tr (Some (inr r))) = true ->
   J.fo_ok (r_std r) = true /\ J.fo_ok (r_dst r) = true.
 Proof.
@@ -167,7 +164,7 @@ Proof.
     rewrite (zone_off_rule (ut_offset first) [] r t I) in Ho. injection Ho as <-.
     eexists. split; [exact Hat|]. destruct (rule_is_dst r t); reflexivity.
   - intros w l Hsp He. exact (holds_loc_rule5 zone a first w l Ht Hf Hr Ha Hne Hsp He).
-  - intros t o Hsp _ Ho Hd2 _.
+  - intros t o Hsp _ Ho Hd2 _ _.
     rewrite (zone_off_rule (ut_offset first) [] r t I) in Ho. fold (roff r t) in Ho. injection Ho as <-.
     rewrite in_dom_rule_only in Hd2. apply andb_prop in Hd2. destruct Hd2 as [Hts Hp].
     rewrite spacing_ok_rule_only, andb_true_r in Hsp.
